@@ -3,7 +3,7 @@
 # Confirms a sub-agent's change in its scratch worktree (demo fails with it, passes without, existing tests still
 # pass), then applies it to /repo, runs the checks, reverts /repo, and stores everything under /verif/seeded/<ID>-<n>/.
 ID="$1"; N="$2"; shift 2; EXTRA="$@"
-WT=/tmp/wt/$ID; OUT=$WT/out; V=/verif; DEST=$V/seeded/$ID-$N
+SUF="${WT_SUFFIX:-}"; WT=/tmp/wt/$ID$SUF; OUT=$WT/out; V=/verif; DEST=$V/seeded/$ID$SUF-$N
 [ -f "$OUT/change$N.diff" ] || { echo "no $OUT/change$N.diff"; exit 2; }
 cd "$WT" || exit 2
 git checkout -q -- . ; git clean -fdq -e out -e target -e Cargo.lock
@@ -45,7 +45,8 @@ meta={"breaks_property":ID,"source":"independent sub-agent given only the proper
  "existing_suite_with_change":{"failed_tests":int(nf),"note":"6 = the network-only test_invalid_certs tests that always fail offline"},
  "checks_run":results,"caught_by":caught.split(),
  "needs_to_manifest":"see NOTES excerpt","what_i_ran":"tools/eval_seeded.sh %s %s"%(ID,N)}
-json.dump(meta,open(f"/verif/seeded/{ID}-{N}/meta.json","w"),indent=1)
+import os
+json.dump(meta,open(f"/verif/seeded/{ID}{os.environ.get('WT_SUFFIX','')}-{N}/meta.json","w"),indent=1)
 PY
 sed -n '1,200p' "$OUT/NOTES.md" > "$DEST/NOTES.md"
-echo "RESULT $ID-$N caught_by:[$caught ]"
+echo "RESULT $ID$SUF-$N caught_by:[$caught ]"
